@@ -83,7 +83,8 @@ func main() {
 		"cutting families, unknown metric/field/tag key. Non-trivial = the reference result is non-empty, the layout has more than one shard " +
 		"or leaf and the run equals the reference; distinct by (data set, shard count, layout, delivery order, statement).")
 	c.Assume("the reference (one shard, one leaf, in-order) is tied to the naive model of internal/node for the unlimited form of every statement; " +
-		"a statement whose reference differs from the model is reported under C12/reference-vs-model and is not used for layout comparisons")
+		"a statement whose reference VALUES differ from the model is reported under C12/reference-vs-model and the layouts are still compared with that reference; " +
+		"one whose reference errs/answers against the language is reported and not used for layout comparisons")
 	c.Assume("order by / limit as the code defines them: `order by f` sorts groups by the order function of f's type over time, `order by fn(x)` by fn over the " +
 		"result series named x, a group without such a series sorts as 0; limit keeps the first n groups, groups with equal sort values and limit without " +
 		"order by keep an arbitrary admissible subset; kept groups must carry exactly the reference values")
